@@ -68,20 +68,34 @@ Theorem trap_area_only_flat_on_raster : forall a g A, make_trap a = OK g ->
 Proof. exact trap_area_only_flat_raster_l. Qed.
 Print Assumptions trap_area_only_flat_on_raster.
 
-(* the flat time is never negative (unless a negative flat_time was itself requested) — defect 14 *)
-Theorem trap_flat_nonneg : forall a g, make_trap a = OK g ->
-  (forall t, a_flat_time a = Some t -> 0 <= t) -> 0 <= t_flat g.
+(* every returned event is well formed: the flat time is never negative (defect 14 and the rejection of
+   negative requests) and both ramps are strictly positive — for ALL accepted arguments *)
+Theorem trap_flat_nonneg : forall a g, make_trap a = OK g -> 0 <= t_flat g.
 Proof. exact trap_flat_nonneg_l. Qed.
 Print Assumptions trap_flat_nonneg.
+
+Theorem trap_wellformed : forall a g, make_trap a = OK g -> 0 < t_rise g /\ 0 <= t_flat g /\ 0 < t_fall g.
+Proof. exact trap_wellformed_l. Qed.
+Print Assumptions trap_wellformed.
 
 (* effective limits (override if given, else system) up to the code's slack *)
 Theorem trap_within_limits : forall a g, make_trap a = OK g ->
   Qabs (t_amplitude g) <= eff_max_grad a + eps /\
-  ~ t_rise g == 0 /\ ~ t_fall g == 0 /\
+  0 < t_rise g /\ 0 < t_fall g /\
   Qabs (t_amplitude g) / t_rise g <= eff_max_slew a * (1 + eps) /\
   Qabs (t_amplitude g) / t_fall g <= eff_max_slew a * (1 + eps).
 Proof. exact trap_within_limits_l. Qed.
 Print Assumptions trap_within_limits.
+
+(* an area-only request never fails on a system with positive limits: the shortest-parameter routine never
+   yields a negative flat time (plateau branch: rise <= first-guess rise < effective time, a nonlinear
+   argument) and its result passes the timing, amplitude and slew checks that follow *)
+Theorem trap_area_only_total : forall a A, a_channel_ok a = true -> a_area a = Some A ->
+  a_flat_area a = None -> a_amplitude a = None -> a_duration a = None -> a_flat_time a = None ->
+  0 < eff_max_grad a -> 0 < eff_max_slew a -> 0 < raster_of a ->
+  exists g, make_trap a = OK g.
+Proof. exact trap_area_only_total_l. Qed.
+Print Assumptions trap_area_only_total.
 
 (* area-only request: at most two rasters longer than ANY continuous-time trapezoid (plateau c, ramps rc
    and flc, flat fc; not necessarily on the raster) that has the area and respects the limits *)
@@ -135,6 +149,12 @@ Example ex_defect14_rejected :
 Proof. vm_compute. reflexivity. Qed.
 Example ex_too_short_rejected :
   err_is (make_trap (with_duration (with_area ex_args 1) (us 30))) E_min_duration = true.
+Proof. vm_compute. reflexivity. Qed.
+Example ex_negative_flat_time_rejected :
+  err_is (make_trap (with_flat_time (with_amplitude ex_args 1000) (- us 100))) E_timing = true.
+Proof. vm_compute. reflexivity. Qed.
+Example ex_negative_rise_rejected :
+  err_is (make_trap (with_rise (with_flat_time (with_amplitude ex_args 1000) (us 100)) (- us 100))) E_timing = true.
 Proof. vm_compute. reflexivity. Qed.
 Example ex_slew_rejected :
   err_is (make_trap (with_rise (with_flat_time (with_amplitude ex_args 1000000) (us 1000)) (us 100))) E_slew_rise = true.
